@@ -221,9 +221,20 @@ func (e *Engine) scanTypes() {
 			}
 		}
 	}
+	if o := e.pkg.Pkg.Scope().Lookup("byteString"); o != nil {
+		reg.AnyConOf(o.Type())
+	}
+	for _, p := range e.allPackages() {
+		if p.Path() == "github.com/fxamacker/cbor/v2" {
+			if o := p.Scope().Lookup("RawMessage"); o != nil {
+				reg.AnyConOf(types.NewSlice(o.Type()))
+			}
+		}
+	}
 	reg.frozen = true
 	// data components: element stores and map components for every sort seen
-	comps := map[string]bool{"ML": true, ecomp(SInt): true, ecomp(SAny): true, ecomp(SSlice): true}
+	comps := map[string]bool{"ML": true, ecomp(SInt): true, ecomp(SAny): true, ecomp(SSlice): true, ecomp(SAddr): true,
+		hcomp(SInt): true, hcomp(SBool): true, hcomp(SStr): true, hcomp(SAddr): true, hcomp(SSlice): true, hcomp(SAny): true}
 	for k := range seen {
 		_ = k
 	}
@@ -439,6 +450,12 @@ func (e *Engine) globalConst(g *ssa.Global) Term {
 	et := g.Type().(*types.Pointer).Elem()
 	name := "gv_" + mangle(g.String())
 	e.declareFun(name, nil, e.reg.SortOf(et))
+	if g.Pkg != e.pkg && types.Identical(et, types.Universe.Lookup("error").Type()) {
+		// exported sentinel errors of other packages (io.EOF, ...) are non-nil
+		if d := e.extraFns[name]; !strings.Contains(d, "assert") {
+			e.extraFns[name] = d + fmt.Sprintf("\n(assert (not (= %s A_nil)))", name)
+		}
+	}
 	return Term{name, e.reg.SortOf(et)}
 }
 
